@@ -266,6 +266,12 @@ MAIN:
 		case syncup := <-d.synCh:
 			if syncup.Start {
 				log.Debugf("%s: sync start", d.Name())
+				// wait for the in-flight writes of notifications received before the sync start,
+				// otherwise they are counted as part of the sync cycle that starts now and survive its prune.
+				err = d.waitForSyncWriters(ctx, sem)
+				if err != nil {
+					return
+				}
 				for {
 					pruneID, err = d.cacheClient.CreatePruneID(ctx, d.Name(), syncup.Force)
 					if err != nil {
@@ -278,6 +284,11 @@ MAIN:
 			}
 			if syncup.End && pruneID != "" {
 				log.Debugf("%s: sync end", d.Name())
+				// wait for the in-flight writes of this sync cycle before pruning
+				err = d.waitForSyncWriters(ctx, sem)
+				if err != nil {
+					return
+				}
 				for {
 					err = d.cacheClient.ApplyPrune(ctx, d.Name(), pruneID)
 					if err != nil {
@@ -306,6 +317,16 @@ MAIN:
 			go d.storeSyncMsg(ctx, syncup, sem)
 		}
 	}
+}
+
+// waitForSyncWriters blocks until all the storeSyncMsg goroutines that hold the semaphore are done.
+func (d *Datastore) waitForSyncWriters(ctx context.Context, sem *semaphore.Weighted) error {
+	err := sem.Acquire(ctx, d.config.Sync.WriteWorkers)
+	if err != nil {
+		return err
+	}
+	sem.Release(d.config.Sync.WriteWorkers)
+	return nil
 }
 
 func isState(r *sdcpb.GetSchemaResponse) bool {
